@@ -44,6 +44,9 @@ func draw(t *rapid.T) *pbt.Case {
 // wrapper around it changes the text.
 const sigF21 = "Error() of a wrapper differs from the wrapped net.OpError (Source and Addr set) by ' -> ' for '->' only"
 
+// sigF23 is the failure class of known finding F23.
+const sigF23 = "Wrapf/Newf print an error-typed argument in full where fmt would apply the precision of the verb"
+
 // arrowOnly tells whether got differs from want only by that spacing,
 // at the addresses of the net.OpError nodes of the tree.
 func arrowOnly(spec *gen.Spec, got, want string) bool {
@@ -143,6 +146,23 @@ func check(c *pbt.Case, r *pbt.R) {
 			if !a2 {
 				r.Failf("a wrapper loses an As match of the wrapped error", "kind %s, target %T\nspec %s", n.K, t1, c.Spec)
 			}
+		}
+	}
+	// "Newf/Errorf yield the fmt-formatted text": an error-typed argument
+	// printed with a precision is cut by fmt (the error's Format method
+	// honours the precision); the library's constructors print it in
+	// full (known finding F23).
+	for _, n := range c.Spec.Nodes() {
+		if n.K != "wrapferrprec" {
+			continue
+		}
+		arg, inner := b.Of[n.X[0]], b.Of[n.C]
+		if _, lib := arg.(fmt.Formatter); !lib {
+			continue // fmt cuts Error() itself for other types: nothing to compare
+		}
+		want := "lit " + n.S[0] + " e=" + fmt.Sprintf("%.12v", arg) + ": " + inner.Error()
+		if got := b.Of[n].Error(); got != want {
+			r.Failf(sigF23, "Wrapf(cause, \"lit %s e=%%.12v\", arg): got %q, fmt gives %q\nspec %s", n.S[0], got, want, c.Spec)
 		}
 	}
 	// Join copies its arguments (as the standard library's does): reusing
